@@ -622,9 +622,14 @@ def evaluate_payload_template(input, context, template):
 
 
         # Extract intrinsic name and normalise it to asl_intrinsic_<name>
-        func, args = intrinsic.split("(", 1)
-        func = func.strip()
-        normalised_func = func.replace("States.", "asl_intrinsic_")
+        intrinsic = intrinsic.strip()
+        func = intrinsic.split("(", 1)[0].strip()
+        if "(" not in intrinsic or not intrinsic.endswith(")") or not func.startswith("States."):
+            raise IntrinsicFailure(
+                "{} is not an Intrinsic Function invocation.".format(intrinsic)
+            )
+        args = intrinsic.split("(", 1)[1]
+        normalised_func = func.replace("States.", "asl_intrinsic_", 1)
         # Extract raw args string
         args = args.rsplit(")", 1)[0]
 
